@@ -61,6 +61,8 @@ def alternatives_for(fi, pname, position, opts):
     if has_s:
         if 'Iterable' in ann or 'list' in ann:
             alts += [(f"{pname}=[{k}]", (lambda k=k: ListV([Subst(k, pname + '0')]))) for k in KINDS]
+            if (opts or {}).get('empty_collections'):
+                alts.append((f"{pname}=[]", lambda: ListV([])))
         alts += [(f"{pname}={k}", (lambda k=k: Subst(k, pname))) for k in KINDS]
     if has_c:
         alts.append((f"{pname}=container", lambda: Cont(pname)))
